@@ -66,8 +66,22 @@ JudgeG1Parse(e) ==
   Tag(e.enc = "bitflip" \/ e.err = (e.enc \in {"truncated", "offcurve", "nonreduced"}), "Parse.err:" \o e.enc) \o
   Tag(e.enc = "offcurve" => ~e.isValid, "Parse.isValid:" \o e.enc)
 
+(* a related pair of messages (ms: met / signed first, mo: the other one), full cross table in one process:
+   each signature verifies for its own message, for no other, and the two signatures differ *)
+JudgeMsgPair(e) ==
+  LET same == ExpectedMsg(e.ms, e.mo) IN
+  Tag(e.selfFirst /\ e.selfSecond, "Inv.Complete:msg/" \o e.rel) \o
+  Tag(e.crossFirstSigSecondMsg = same /\ e.crossSecondSigFirstMsg = same, "Inv.Sound:otherMsg/" \o e.rel) \o
+  Tag(e.sigEqual = same, "Inv.SignatureBindsMessage:" \o e.rel)
+
+(* an honest signature verifies no matter what the process hashed before or in between *)
+JudgeHistory(e) ==
+  Tag(e.before /\ e.after /\ e.sigSame, "Inv.VerdictIndependentOfHistory:" \o e.kind)
+
 Judge(e) ==
   CASE e.event = "Verify"    -> JudgeVerify(e)
+    [] e.event = "MsgPair"   -> JudgeMsgPair(e)
+    [] e.event = "History"   -> JudgeHistory(e)
     [] e.event = "RoundTrip" -> JudgeRoundTrip(e)
     [] e.event = "Pair"      -> JudgePair(e)
     [] e.event = "PairBig"   -> JudgePairBig(e)
